@@ -13,8 +13,8 @@ CONSTANTS MaxC,        \* length constants range over 0..MaxC
 Cs == 0..MaxC
 RecOps == LenOps \ {"!="}
 NeedsOpt(cls, prim) == \E j \in 1..Len(cls) : \E a \in Range(cls[j]) : a.g \in SameGuards
-Scn(kind, wmt, cls, prim) == [kind |-> kind, opt |-> NeedsOpt(cls, prim), wmt |-> wmt, shape |-> "chain", cls |-> cls, prim |-> prim]
-Dia(kind, shape, cls, prim) == [kind |-> kind, opt |-> NeedsOpt(cls, prim), wmt |-> TRUE, shape |-> shape, cls |-> cls, prim |-> prim]
+Scn(kind, wmt, cls, prim) == [kind |-> kind, opt |-> NeedsOpt(cls, prim), wmt |-> wmt, shape |-> "chain", porder |-> <<>>, cls |-> cls, prim |-> prim]
+Dia(kind, shape, cls, prim) == [kind |-> kind, opt |-> NeedsOpt(cls, prim), wmt |-> TRUE, shape |-> shape, porder |-> <<>>, cls |-> cls, prim |-> prim]
 DiaShapes == {"dia_ab", "dia_ba"}
 
 \* atom universes
@@ -101,12 +101,21 @@ F8 == UNION {
         \cup { Dia("cprim", sh, <<<<>>, <<a>>, <<b>>, <<>>>>, <<<<LenAtom(">=", 1, "L", "none", "const")>>>>) : a \in TinyLen, b \in TinyLen }
         : sh \in DiaShapes }
 
-Families == <<F1, F2, F3, F4, F5, F6, F7, F8>>
+\* F9: a chain of three constrained primitives P1 <- P2 <- P3 written in every order in the file (porder = the order of
+\* declaration; the meaning does not depend on it): P3 must receive P1's constraints through P2 whatever comes first
+Perms3 == {<<1, 2, 3>>, <<1, 3, 2>>, <<2, 1, 3>>, <<2, 3, 1>>, <<3, 1, 2>>, <<3, 2, 1>>}
+F9 == { [Scn(kind, FALSE, <<<<>>>>, <<<<a>>, p2, p3>>) EXCEPT !.porder = po] :
+          kind \in {"cprim", "listcprim"}, po \in Perms3,
+          a \in TinyLen \cup {PatAtom(<<"ab">>, "none")},
+          p2 \in {<<>>, <<LenAtom("<=", 3, "L", "none", "const")>>},
+          p3 \in {<<>>, <<PatAtom(<<"bc">>, "none")>>} }
+
+Families == <<F1, F2, F3, F4, F5, F6, F7, F8, F9>>
 Scenarios == UNION {Families[j] : j \in DOMAIN Families}
 
 ASSUME JsonSerialize(IOEnv.VERIF_OUT, SetToSeq(Scenarios))
 \* the pattern / set library, for the harness to cross-check its concrete tables against the spec
-Library == [pats |-> [p \in PatIds |-> SetToSeq(PatAllowed(p))], sets |-> [z \in SetIds |-> SetToSeq(SetDef(z))]]
+Library == [pats |-> [p \in PatIds |-> SetToSeq(PatRanges(p))], sets |-> [z \in SetIds |-> SetToSeq(SetDef(z))]]
 ASSUME JsonSerialize(IOEnv.VERIF_LIB, Library)
 ASSUME PrintT(<<"@@PRINT@@ scenarios", Cardinality(Scenarios), [j \in DOMAIN Families |-> Cardinality(Families[j])]>>)
 VARIABLE dummy
